@@ -54,8 +54,10 @@ def ok_state(vals, tag_i) -> bool:
     st = state(vals, tag_i)
     if rm.omitted(AST, st):
         return False
-    if "pytag" in FS and "num" in FS and st["tag"] == "final" and st["num"] != 0:
-        return False   # unreachable (C05 final_tag_has_no_num)
+    if ("pytag" in FS or "tag" in FS) and "num" in FS and st["tag"] == "final" and st["num"] != 0:
+        # (final, NUM > 0): no bump produces it (C05 final_tag_has_no_num) and as a --set-version target it is refused
+        # (concrete table in vp/props/c01.py validations). With TAG it is written '-final8', which is not PEP 440 text: the reference order is undefined there
+        return False
     return True
 
 
